@@ -75,6 +75,32 @@ theorem filterBulk_spec (ts : List Nat) :
         · exact hxt e
         · exact i4 x hc hm
 
+/-- **the client-side request names exactly the tasks the caller named**: for a single uid and for
+    a non-empty list the published command carries those uids and no other - whatever the states of
+    the named tasks, and whatever other tasks the manager knows -/
+theorem C08_request_names (known : List Nat) :
+    (∀ u, RPVerif.Cancel.request known (.one u) = [u])
+    ∧ (∀ us, us ≠ [] → RPVerif.Cancel.request known (.many us) = us)
+    ∧ RPVerif.Cancel.request known .none = known ∧ RPVerif.Cancel.request known (.many []) = known := by
+  refine ⟨fun _ => rfl, ?_, rfl, rfl⟩
+  intro us h
+  cases us with
+  | nil => exact absurd rfl h
+  | cons a as => rfl
+
+/-- a task that is not named by the caller is not named by the command (bystanders stay out of
+    every component's cancel list), for a request that names at least one task -/
+theorem C08_request_bystander (known : List Nat) (a : RPVerif.Cancel.Arg) (t : Nat)
+    (hne : a ≠ .none ∧ a ≠ .many []) (ht : match a with | .one u => t ≠ u | .many us => t ∉ us | .none => True) :
+    t ∉ RPVerif.Cancel.request known a := by
+  cases a with
+  | none => exact absurd rfl hne.1
+  | one u => simpa [RPVerif.Cancel.request] using ht
+  | many us =>
+    cases us with
+    | nil => exact absurd rfl hne.2
+    | cons x xs => simpa [RPVerif.Cancel.request] using ht
+
 /-- **C08 (intake filter)**: of a bulk arriving at a component after a cancel
     request, exactly the named tasks are advanced to CANCELED instead of being
     processed, every other task of the bulk is processed unchanged -/
